@@ -297,6 +297,9 @@ func checkCmd(args []string) int {
 	if wantG1 {
 		groups = append(groups, u.checkG1())
 	}
+	if id == "C11" || id == "C19" || id == "C12" {
+		groups = append(groups, u.checkSentinels())
+	}
 
 	// translation cross-validation: a seeded random sample of DISCHARGED ground instances is executed on the real code and
 	// the observed output is judged by the solver against the same postcondition (guards assumption A10: the proof and
